@@ -75,6 +75,9 @@ func (Engine) Generate(prop string, r *kit.Rand, tier string) *kit.Scenario[Conf
 	c.Readv = r.Chance(0.4)
 	if r.Chance(0.15) {
 		c.Pre = r.Range(11, 16)
+		if r.Chance(0.2) {
+			c.Pre = r.Range(24, 40) // a face's clean-up is then a batch of more than 64 changes
+		}
 	}
 	origins := []uint64{0, 0, 128}
 	if c.Readv {
